@@ -6,7 +6,7 @@ import json
 import os
 from fractions import Fraction
 
-from . import common, rpucases, clirun, xmlgen, xmlspec
+from . import common, rpucases, clirun, specgen, xmlgen, xmlspec, xmldoc
 
 
 # ---------------------------------------------------------------------------------------------
@@ -252,6 +252,70 @@ def judge(doc, cw, ch, rc, out, se, frames_json):
     return failure, sp, flips, stats
 
 
+# ---------------------------------------------------------------------------------------------
+# the document-level Lean model: configOfDoc + generateXml on the tokenised document (Model/XmlDoc.lean)
+# ---------------------------------------------------------------------------------------------
+
+def impl_answer(rc, out):
+    """the tool's result in the model's answer format"""
+    if rc == 0 and out is not None:
+        return "ok %d %s" % (len(out), ",".join(rpucases.unescape(o).hex() for o in out) if out else "-")
+    return "err" if rc == 1 else "panic" if rc == 101 else "exit %s" % rc
+
+
+def model_rpus(answer):
+    """(rc, escaped payloads) of a model answer, in the form `judge_with` takes the tool's result"""
+    if answer.startswith("ok "):
+        parts = answer.split(" ")
+        hexes = [] if len(parts) < 3 or parts[2] == "-" else parts[2].split(",")
+        return 0, [specgen.escape(bytes.fromhex(h)) for h in hexes]
+    return (1 if answer == "err" else 101 if answer == "panic" else -1), None
+
+
+def doc_model_compare(ctx, runs):
+    """runs: list of (doc, cw, ch, rc, out, se, tool_ok, n_ambiguous).  Every document goes through the Lean
+    `xml.doc` op; the model's RPU list must be the tool's byte for byte.  The model rounds exactly, the tool in
+    f32 / f64: where they differ, the model's own output is judged against the exact reference like the tool's
+    (`judge_with`, same tie search); a difference is a tie difference - not a disagreement - only when the
+    document has tie-ambiguous sites and both outputs lie in the accepted set"""
+    lines, keep = [], []
+    for r in runs:
+        try:
+            lines.append(xmldoc.line(r[0], r[1], r[2]))
+            keep.append(r)
+        except xmldoc.NotScaled:
+            ctx.count("docmodel=skipped-token-beyond-6-digits")
+    mo, _, _ = common.run_lines_sharded(common.MODEL_EXE, lines) if lines else ([], 0, "")
+    ctx.evaluations += len(lines)
+    differing = []
+    for l, m, r in zip(lines, mo, keep):
+        impl = impl_answer(r[3], r[4])
+        if m == impl:
+            ctx.count("docmodel=identical" + ("" if r[3] == 0 else "-" + impl.split(" ")[0]))
+        else:
+            differing.append((l, m, impl, r))
+    # the model's frames, parsed like the tool's
+    mr = [model_rpus(m) for _, m, _, _ in differing]
+    mparsed = parse_frames([o for _, o in mr]) if differing else []
+    ties = 0
+    for (l, m, impl, r), (mrc, mout), mfr in zip(differing, mr, mparsed):
+        doc, cw, ch, rc, out, se, tool_ok, namb = r
+        verdict = None
+        if namb > 0 and tool_ok and mrc in (0, 1):
+            verdict = judge_with(doc, cw, ch, mrc, mout, "", mfr if mout else [], frozenset())[0]
+            if verdict is None:
+                ties += 1
+                ctx.count("docmodel=tie-difference")
+                continue
+        ctx.count("docmodel=DISAGREE")
+        ctx.disagree("generate --xml (Lean configOfDoc + generateXml on the tokenised document)", l[:4000], m[:300],
+                     impl[:300] + " | " + se[-150:] + (" | model vs reference: %s" % json.dumps(verdict)[:300] if verdict else ""))
+    ctx.extra["doc_model_documents"] = len(lines)
+    ctx.extra["doc_model_identical"] = len(lines) - len(differing)
+    ctx.extra["doc_model_tie_differences"] = ties
+    return lines
+
+
 def save_xml(ctx, text, n):
     if len(text) <= 6000:
         return text
@@ -428,7 +492,9 @@ def run(ctx):
                 "(`generate --xml`) is run on every document; each produced RPU is parsed back and every block field, the source PQ "
                 "levels, the scene-cut flag, the frame count and order are compared with the exact-rational specification "
                 "(vlib/xmlspec.py); a rounding whose exact argument lies within 2^-8 of a tie accepts both neighbours and is counted as "
-                "tie_ambiguous; the tool's bytes are also compared with the Lean GenModel run on the specification's integer config; "
+                "tie_ambiguous; the tool's bytes are also compared with the Lean GenModel run on the specification's integer config, and with the Lean "
+                "document model (Model/XmlDoc.lean: configOfDoc + generateXml) run on the tokenised document itself - byte for byte, a "
+                "difference being tolerated only in a document with tie_ambiguous sites and when the model's output is in the accepted set too; "
                 "the Lean integer encodings (Model/XmlSpec.lean) are compared with the Fraction specification on random scaled decimals; "
                 "non-trivial = generation succeeded and every frame was compared; distinct by document hash")
     ctx.assumptions = ["XML text parsing (roxmltree) is a parameter: documents are rendered with the element layout of the repository's samples",
@@ -475,6 +541,7 @@ def run(ctx):
     tie_ambiguous = tie_flipped = frames_cmp = fields_cmp = sites_total = 0
     lines = []
     impls = []
+    docruns = []
     n_fail = 0
     for k, ((doc, cw, ch, text, origin), (rc, out, se), fr) in enumerate(zip(docs, res, parsed)):
         failure, sp, flips, stats = judge(doc, cw, ch, rc, out, se, fr)
@@ -502,6 +569,7 @@ def run(ctx):
             ctx.oracle_fail(failure)
         elif rc == 0:
             ctx.nontriv(text)
+        docruns.append((doc, cw, ch, rc, out, se, failure is None, len(sp["ambiguous"])))
         # the Lean model on the specification's integer config (under the tie resolution that explains the tool)
         if rc not in (0, 1):
             ctx.count("model-run-skipped=tool-crashed")
@@ -513,6 +581,10 @@ def run(ctx):
     for l, m, (impl, se) in zip(lines, mo, impls):
         if m != impl:
             ctx.disagree("generate --xml (GenModel on the specification's integer config)", l[:4000], m[:300], impl[:300] + " | " + se[-150:])
+
+    # the same documents, tokenised, through the Lean document model (version detection, target filter, trim
+    # selection, block order, defaults: Model/XmlDoc.lean) - the tool's bytes must be the model's
+    doclines = doc_model_compare(ctx, docruns)
 
     ctx.extra["documents"] = len(docs)
     ctx.extra["frames_compared"] = frames_cmp
@@ -527,6 +599,8 @@ def run(ctx):
 
     ctx.sample({"document": docs[10][3][:1500] + "...", "canvas": [docs[10][1], docs[10][2]]})
     ctx.sample({"model_line": lines[10][:600]})
+    if len(doclines) > 10:
+        ctx.sample({"doc_model_line": doclines[10][:600]})
     ctx.sample({"xmlenc": [list(c) for c in cases[:8]]})
     log = common.log
     log("C11: %d documents, %d frames / %d fields compared, %d rounding sites, %d tie_ambiguous (%d resolved to the neighbour)"
